@@ -677,10 +677,14 @@ impl Check for C03 {
         json!({"real": ["tiny_std::allocator::dlmalloc::Dlmalloc", "tiny_std::sync::Mutex (threaded variant)", "real memory accesses inside a reserved arena"], "stub": ["mmap/mremap/munmap (memory provider: placement and refusals by decision)", "futex and threads (threaded variant)"]})
     }
     fn run(&self, case: u64, dec: Dec, opts: &RunOpts) -> RunOut {
-        if case % 8 == 7 {
+        // variants are picked by a hash of the case number: cases are dealt to the workers
+        // round-robin and odd workers run the debug build, a plain modulus would tie a variant to
+        // one build profile (and to two of the sixteen workers)
+        let h = simk::dec::mix(&[case, 0xc03]);
+        if h % 8 == 7 {
             run_threaded(dec, opts)
         } else {
-            let max = if opts.tier == Tier::Thorough && case % 16 == 0 { 400 } else { 120 };
+            let max = if opts.tier == Tier::Thorough && (h >> 8) % 16 == 0 { 400 } else { 120 };
             run_single(dec, opts, max)
         }
     }
@@ -1017,7 +1021,7 @@ impl Check for C04 {
         }
     }
     fn rule(&self) -> String {
-        "each case = one seeded workload round (1..50 requests from the C03 size profiles and alignments, free order forward/reverse/interleaved/random, frees in the middle of a round, 0..3 small long-lived blocks, 1 request in 5 reached by doubling reallocs from an eighth of its size, a huge-size profile of 6..42 MiB (every 4th case is of the big-holes family: 2..8 huge blocks with separators, frees in the middle of the round and 1..2 long-lived blocks), optional steady-state churn, optional sparse mmap refusals) repeated N times on one Dlmalloc (quick N=200; thorough N=200, every 8th case N=5000) over the simulated address space with placement by decision; 1 case in 6 runs 2..3 simulated threads through Mutex<Dlmalloc>. The provider's exact mapped-byte total is sampled after every call; maxima per window of N/8 rounds. Violation = maxima strictly increasing over the last 5 windows AND total growth >= 256 KiB AND mapped bytes at the end > 3 x peak live bytes + 8 MiB; or: mapped bytes at the end exceed half of the simulated 4 GiB address space and either a mapping was refused for lack of room with the end above 3 x peak live bytes + 8 MiB, or the end is above 8 x peak live bytes + 64 MiB (growth that stopped at the wall). One run in 5x2 uses a consistent placement policy (top-down: every new mapping directly below the lowest one, as Linux lays mappings out; or bottom-up) instead of a placement drawn per call. non-trivial = >=3 requests per round and at least one trim or unmap happened; distinct = hash over operation counts and provider counters. Every 13th case (case % 13 == 12) runs on engine B instead (crates/checks/src/c04b.rs): probes/allocprobe, a no-libc binary whose global allocator is tiny-std's own GlobalDlMalloc, under the ptrace simulator: 64..200 rounds of 2..4 real threads (1 case in 6: main alone) each doing 1..5 times 'allocate 2..8 blocks (small/medium/>=64 KiB profiles), touch, free in a generated order', all joined, one uncontended alloc/free on main, ROUND_END; scheduling points at every system call and right after every atomic instruction (breakpoints), 2..6 further single steps behind an atomic instruction every other time with the preempted thread held back 0..12 quanta, <=24 random bursts; mapped bytes = the tracer's mapping ledger at each ROUND_END (cross-checked with /proc/pid/maps); same growth oracle, signature footprint|unbounded-growth|global-allocator; non-trivial there = >=2 threads and a futex park or a burst while two threads were alive".into()
+        "each case = one seeded workload round (1..50 requests from the C03 size profiles and alignments, free order forward/reverse/interleaved/random, frees in the middle of a round, 0..3 small long-lived blocks, 1 request in 5 reached by doubling reallocs from an eighth of its size, a huge-size profile of 6..42 MiB (every 4th case is of the big-holes family: 2..8 huge blocks with separators, frees in the middle of the round and 1..2 long-lived blocks), optional steady-state churn, optional sparse mmap refusals) repeated N times on one Dlmalloc (quick N=200; thorough N=200, one case in 12 N=3000) over the simulated address space with placement by decision; 1 case in 6 runs 2..3 simulated threads through Mutex<Dlmalloc>. The provider's exact mapped-byte total is sampled after every call; maxima per window of N/8 rounds. Violation = maxima strictly increasing over the last 5 windows AND total growth >= 256 KiB AND mapped bytes at the end > 3 x peak live bytes + 8 MiB; or: mapped bytes at the end exceed half of the simulated 4 GiB address space and either a mapping was refused for lack of room with the end above 3 x peak live bytes + 8 MiB, or the end is above 8 x peak live bytes + 64 MiB (growth that stopped at the wall). One run in 5x2 uses a consistent placement policy (top-down: every new mapping directly below the lowest one, as Linux lays mappings out; or bottom-up) instead of a placement drawn per call. non-trivial = >=3 requests per round and at least one trim or unmap happened; distinct = hash over operation counts and provider counters. Every 13th case (case % 13 == 12) runs on engine B instead (crates/checks/src/c04b.rs): probes/allocprobe, a no-libc binary whose global allocator is tiny-std's own GlobalDlMalloc, under the ptrace simulator: 64..200 rounds of 2..4 real threads (1 case in 6: main alone) each doing 1..5 times 'allocate 2..8 blocks (small/medium/>=64 KiB profiles), touch, free in a generated order', all joined, one uncontended alloc/free on main, ROUND_END; scheduling points at every system call and right after every atomic instruction (breakpoints), 2..6 further single steps behind an atomic instruction every other time with the preempted thread held back 0..12 quanta, <=24 random bursts; mapped bytes = the tracer's mapping ledger at each ROUND_END (cross-checked with /proc/pid/maps); same growth oracle, signature footprint|unbounded-growth|global-allocator; non-trivial there = >=2 threads and a futex park or a burst while two threads were alive".into()
     }
     fn assumptions(&self) -> Vec<String> {
         vec![
@@ -1034,12 +1038,15 @@ impl Check for C04 {
         if case % 13 == 12 {
             return crate::c04b::c04_engine_b(case, dec, opts);
         }
-        let rounds = if opts.tier == Tier::Thorough && case % 8 == 0 { 5000 } else { 200 };
-        if case % 6 == 5 {
+        // long runs are picked by a hash of the case number (cases are dealt to the workers
+        // round-robin: a plain modulus would give all of them to two workers)
+        let rounds = if opts.tier == Tier::Thorough && simk::dec::mix(&[case, 0x10] ) % 12 == 0 { 3000 } else { 200 };
+        let h = simk::dec::mix(&[case, 0xc04]);
+        if h % 6 == 5 {
             run_footprint_threaded(dec, opts, rounds.min(400))
         } else {
             // every 4th case: the big-holes family
-            run_footprint_single(dec, opts, rounds, case % 4 == 1)
+            run_footprint_single(dec, opts, rounds, (h >> 8) % 4 == 1)
         }
     }
 }
